@@ -343,7 +343,7 @@ def check_param_plumbing(chk, F, rule="T3.plumbing"):
                     probs.append("calls %s, expected %s" % (ev[1], tabfn))
                 if not mir.mentions(ev[2][0], lambda t: t[0] == "arg" and t[1] == 1):
                     probs.append("table function not applied to self")
-                if kind == "write" and not (len(ev[2]) > 1 and ev[2][1] == ("arg", 2, b["locals"][2]["name"])):
+                if kind == "write" and not (len(ev[2]) > 1 and ev[2][1] == ("arg", 2, mir.argname(2, b["locals"][2]["name"]))):
                     probs.append("table writer gets %s instead of the value" % mir.fmt(ev[2][1]))
             if flag_on and not tcalls:
                 probs.append("flag on but no table call on a path")
@@ -410,7 +410,7 @@ def check_param_plumbing(chk, F, rule="T3.plumbing"):
             if code == "zeta" and gets:
                 kc = [c for c in p.constraints if mir.mentions(c[0], lambda t: t[0] == "arg" and t[1] == 2)]
                 okk = any((c[0][0] == "binop" and c[0][1] == "Eq" and "codes::zeta_tables::K" in (const_origin(c[0][2]), const_origin(c[0][3]))) or
-                          (c[0] == ("arg", 2, "k") and c[1] == "==" and c[2] == 3) for c in kc)
+                          (c[0] == ("arg", 2, "arg2") and c[1] == "==" and c[2] == 3) for c in kc)
                 if not okk:
                     probs.append("zeta LEN table consulted without checking k == zeta_tables::K")
             r = p.ret
